@@ -207,7 +207,8 @@ func (d *structDecoder) tryOptimize() {
 	}
 }
 
-// decode from '\uXXXX'
+// decode from '\uXXXX': cursor is the index of the first digit. The returned cursor is the index of
+// the last byte consumed.
 func decodeKeyCharByUnicodeRune(buf []byte, cursor int64) ([]byte, int64, error) {
 	const defaultOffset = 4
 	const surrogateOffset = 6
@@ -215,20 +216,27 @@ func decodeKeyCharByUnicodeRune(buf []byte, cursor int64) ([]byte, int64, error)
 	if cursor+defaultOffset >= int64(len(buf)) {
 		return nil, 0, errors.ErrUnexpectedEndOfJSON("escaped string", cursor)
 	}
-
-	r := unicodeToRune(buf[cursor : cursor+defaultOffset])
-	if utf16.IsSurrogate(r) {
-		cursor += defaultOffset
-		if cursor+surrogateOffset >= int64(len(buf)) || buf[cursor] != '\\' || buf[cursor+1] != 'u' {
-			return []byte(string(unicode.ReplacementChar)), cursor + defaultOffset - 1, nil
-		}
-		cursor += 2
-		r2 := unicodeToRune(buf[cursor : cursor+defaultOffset])
-		if r := utf16.DecodeRune(r, r2); r != unicode.ReplacementChar {
-			return []byte(string(r)), cursor + defaultOffset - 1, nil
-		}
+	if err := validateHex4(buf[cursor:cursor+defaultOffset], cursor); err != nil {
+		return nil, 0, err
 	}
-	return []byte(string(r)), cursor + defaultOffset - 1, nil
+	r := unicodeToRune(buf[cursor : cursor+defaultOffset])
+	last := cursor + defaultOffset - 1
+	if utf16.IsSurrogate(r) {
+		next := cursor + defaultOffset
+		if next+surrogateOffset >= int64(len(buf)) || buf[next] != '\\' || buf[next+1] != 'u' {
+			return []byte(string(unicode.ReplacementChar)), last, nil
+		}
+		if err := validateHex4(buf[next+2:next+surrogateOffset], next+2); err != nil {
+			return nil, 0, err
+		}
+		r2 := unicodeToRune(buf[next+2 : next+surrogateOffset])
+		if r := utf16.DecodeRune(r, r2); r != unicode.ReplacementChar {
+			return []byte(string(r)), next + surrogateOffset - 1, nil
+		}
+		// an unpaired surrogate: the escape that follows stands for itself
+		return []byte(string(unicode.ReplacementChar)), last, nil
+	}
+	return []byte(string(r)), last, nil
 }
 
 // decodeKeyCharByEscapedChar decodes the escape whose character after the backslash is at cursor.
@@ -254,8 +262,10 @@ func decodeKeyCharByEscapedChar(buf []byte, cursor int64) ([]byte, int64, error)
 		return []byte{'\t'}, cursor, nil
 	case 'u':
 		return decodeKeyCharByUnicodeRune(buf, cursor+1)
+	case nul:
+		return nil, 0, errors.ErrUnexpectedEndOfJSON("string", cursor)
 	}
-	return nil, cursor, nil
+	return nil, 0, errors.ErrSyntax(fmt.Sprintf("invalid character %q in string escape code", c), cursor)
 }
 
 func decodeKeyByBitmapUint8(d *structDecoder, buf []byte, cursor int64) (int64, *structFieldSet, error) {
@@ -397,8 +407,22 @@ func decodeKeyNotFound(b unsafe.Pointer, cursor int64) (int64, *structFieldSet, 
 			return cursor, nil, nil
 		case '\\':
 			cursor++
-			if char(b, cursor) == nul {
+			switch c := char(b, cursor); c {
+			case '"', '\\', '/', 'b', 'f', 'n', 'r', 't':
+			case 'u':
+				for i := 0; i < 4; i++ {
+					cursor++
+					if hexToInt[char(b, cursor)] == 0 && char(b, cursor) != '0' {
+						if char(b, cursor) == nul {
+							return 0, nil, errors.ErrUnexpectedEndOfJSON("string", cursor)
+						}
+						return 0, nil, errors.ErrSyntax(fmt.Sprintf("json: invalid character %c in \\u hexadecimal character escape", char(b, cursor)), cursor)
+					}
+				}
+			case nul:
 				return 0, nil, errors.ErrUnexpectedEndOfJSON("string", cursor)
+			default:
+				return 0, nil, errors.ErrSyntax(fmt.Sprintf("invalid character %q in string escape code", c), cursor)
 			}
 		case nul:
 			return 0, nil, errors.ErrUnexpectedEndOfJSON("string", cursor)
@@ -486,7 +510,7 @@ func decodeKeyByBitmapUint8Stream(d *structDecoder, s *Stream) (*structFieldSet,
 					if err != nil {
 						return nil, "", err
 					}
-					cursor = s.cursor
+					_, cursor, p = s.stat() // the escape may have been completed by a read, which can move the buffer
 					for _, c := range chars {
 						curBit &= bitmap[keyIdx][largeToSmallTable[c]]
 						if curBit == 0 {
@@ -573,7 +597,7 @@ func decodeKeyByBitmapUint16Stream(d *structDecoder, s *Stream) (*structFieldSet
 					if err != nil {
 						return nil, "", err
 					}
-					cursor = s.cursor
+					_, cursor, p = s.stat() // the escape may have been completed by a read, which can move the buffer
 					for _, c := range chars {
 						curBit &= bitmap[keyIdx][largeToSmallTable[c]]
 						if curBit == 0 {
@@ -598,7 +622,7 @@ func decodeKeyByBitmapUint16Stream(d *structDecoder, s *Stream) (*structFieldSet
 	}
 }
 
-// decode from '\uXXXX'
+// decode from '\uXXXX': s.cursor is the index of the first digit and is left on the last byte consumed.
 func decodeKeyCharByUnicodeRuneStream(s *Stream) ([]byte, error) {
 	const defaultOffset = 4
 	const surrogateOffset = 6
@@ -609,23 +633,30 @@ func decodeKeyCharByUnicodeRuneStream(s *Stream) ([]byte, error) {
 			return nil, errors.ErrInvalidCharacter(s.char(), "escaped unicode char", s.totalOffset())
 		}
 	}
+	if err := validateHex4(s.buf[s.cursor:s.cursor+defaultOffset], s.totalOffset()); err != nil {
+		return nil, err
+	}
 
 	r := unicodeToRune(s.buf[s.cursor : s.cursor+defaultOffset])
+	s.cursor += defaultOffset - 1
 	if utf16.IsSurrogate(r) {
-		s.cursor += defaultOffset
-		for s.cursor+surrogateOffset >= s.length && s.read() {
+		next := s.cursor + 1
+		for next+surrogateOffset >= s.length && s.read() {
 		}
-		if s.cursor+surrogateOffset >= s.length || s.buf[s.cursor] != '\\' || s.buf[s.cursor+1] != 'u' {
-			s.cursor += defaultOffset - 1
+		if next+surrogateOffset >= s.length || s.buf[next] != '\\' || s.buf[next+1] != 'u' {
 			return []byte(string(unicode.ReplacementChar)), nil
 		}
-		r2 := unicodeToRune(s.buf[s.cursor+defaultOffset+2 : s.cursor+surrogateOffset])
+		if err := validateHex4(s.buf[next+2:next+surrogateOffset], s.totalOffset()); err != nil {
+			return nil, err
+		}
+		r2 := unicodeToRune(s.buf[next+2 : next+surrogateOffset])
 		if r := utf16.DecodeRune(r, r2); r != unicode.ReplacementChar {
-			s.cursor += defaultOffset - 1
+			s.cursor = next + surrogateOffset - 1
 			return []byte(string(r)), nil
 		}
+		// an unpaired surrogate: the escape that follows stands for itself
+		return []byte(string(unicode.ReplacementChar)), nil
 	}
-	s.cursor += defaultOffset - 1
 	return []byte(string(r)), nil
 }
 
@@ -659,7 +690,7 @@ RETRY:
 		}
 		goto RETRY
 	default:
-		return nil, errors.ErrUnexpectedEndOfJSON("struct field", s.totalOffset())
+		return nil, errors.ErrSyntax(fmt.Sprintf("invalid character %q in string escape code", s.buf[s.cursor]), s.totalOffset())
 	}
 }
 
@@ -676,13 +707,32 @@ func decodeKeyNotFoundStream(s *Stream, start int64) (*structFieldSet, string, e
 			return nil, key, nil
 		case '\\':
 			cursor++
-			if char(p, cursor) == nul {
-				s.cursor = cursor
-				if !s.read() {
-					return nil, "", errors.ErrUnexpectedEndOfJSON("string", s.totalOffset())
+			n := 0 // an escape is the character after the backslash and, for \u, four digits
+			for i := 0; i <= n; i++ {
+				for char(p, cursor) == nul {
+					s.cursor = cursor
+					if !s.read() {
+						return nil, "", errors.ErrUnexpectedEndOfJSON("string", s.totalOffset())
+					}
+					buf, cursor, p = s.stat()
 				}
-				// stay on the escaped character: the loop steps over it without looking at it
-				buf, cursor, p = s.stat()
+				c := char(p, cursor)
+				if i == 0 {
+					switch c {
+					case '"', '\\', '/', 'b', 'f', 'n', 'r', 't':
+					case 'u':
+						n = 4
+					default:
+						s.cursor = cursor
+						return nil, "", errors.ErrSyntax(fmt.Sprintf("invalid character %q in string escape code", c), s.totalOffset())
+					}
+				} else if hexToInt[c] == 0 && c != '0' {
+					s.cursor = cursor
+					return nil, "", errors.ErrSyntax(fmt.Sprintf("json: invalid character %c in \\u hexadecimal character escape", c), s.totalOffset())
+				}
+				if i < n {
+					cursor++
+				}
 			}
 		case nul:
 			s.cursor = cursor
